@@ -8,8 +8,9 @@ Require Import TL.Model.Inspect TL.Model.InspectSpec TL.Model.InspectCache TL.Pr
 Require Import TLRun.GenInspectTables.
 Local Open Scope string_scope.
 
-(* The statement at full strength: no guard, every predicate, every history.  It is FALSE of the
-   faithful model (see the C17_refuted_* witnesses); the theorems below carry explicit guards. *)
+(* The statement at full strength: every predicate, every history.  Clauses 1 and 4 are now theorems
+   without guard (C17_agrees, C17_origin_concrete); clauses 2 and 3 are FALSE of the faithful model for the
+   string-based issubscriptedgeneric and for the ==-keyed caches (C17_refuted_* witnesses). *)
 Definition C17_full : Prop :=
   (forall p t b, runtime_says tbl p t = Some b -> run_pred tbl p t = Ok b)
   /\ (forall p a b, spell tbl a b -> run_pred tbl p a = run_pred tbl p b)
@@ -23,28 +24,27 @@ Proof. vm_compute. reflexivity. Qed.
 
 (* Every predicate that stands for a subclass test (22 of them: date/datetime/time/timedelta/decimal/
    fraction/uuid/iterable/iterator/tuple/sequence/collection/mapping via origin(); enum/text/string/
-   bytes/number/integer/float/pattern/path on the resolved object) answers exactly what issubclass says
-   for the class the annotation resolves to -- for every NewType chain of any length, optionally ending
-   in an alias, over a class, a typing alias or a parameterised generic with arbitrary arguments. *)
-Theorem C17_agrees : forall p t b,
-  runtime_says tbl p t = Some b -> c17_guard tbl p t = true -> run_pred tbl p t = Ok b.
+   bytes/number/integer/float/pattern/path via the typing origin of the resolved object) answers exactly
+   what issubclass says for the class the annotation resolves to -- for EVERY nesting of NewTypes and
+   aliases, of any depth, over a class, a typing alias or a parameterised generic with arbitrary
+   arguments.  No guard is left: the domain (the annotation resolves to a class) is the only hypothesis. *)
+Theorem C17_agrees : forall p t b, runtime_says tbl p t = Some b -> run_pred tbl p t = Ok b.
 Proof. intros p t b. exact (agrees tbl p t b C17_tables_ok). Qed.
 
-(* inside the domain and the guard no predicate raises *)
-Theorem C17_total : forall p t,
-  in_domain tbl p t = true -> c17_guard tbl p t = true -> exists b, run_pred tbl p t = Ok b.
+(* inside the domain no predicate raises *)
+Theorem C17_total : forall p t, in_domain tbl p t = true -> exists b, run_pred tbl p t = Ok b.
 Proof. intros p t. exact (total tbl p t C17_tables_ok). Qed.
 
 (* origin() does not depend on the spelling of a class-like annotation (typing.List[int] vs list[int],
-   typing.Mapping vs collections.abc.Mapping, under any NewType chain / alias) ... *)
+   typing.Mapping vs collections.abc.Mapping, under any nesting of NewTypes / aliases) ... *)
 Theorem C17_spelling_origin : forall a b c,
-  spell tbl a b -> chain_ok a = true -> head_class tbl (strip a) = Some c -> origin tbl a = origin tbl b.
+  spell tbl a b -> head_class tbl (strip a) = Some c -> origin tbl a = origin tbl b.
 Proof. exact (spelling_origin tbl). Qed.
 
-(* ... hence neither does any predicate of the origin() family *)
+(* ... hence neither does any of the 22 subclass-test predicates *)
 Theorem C17_spelling : forall p f a b c,
-  spell tbl a b -> chain_ok a = true -> head_class tbl (strip a) = Some c ->
-  family_of p = Some f -> uses_map f = true -> run_pred tbl p a = run_pred tbl p b.
+  spell tbl a b -> head_class tbl (strip a) = Some c -> family_of p = Some f ->
+  run_pred tbl p a = run_pred tbl p b.
 Proof. exact (spelling_pred tbl). Qed.
 
 (* Union[..] / Optional[..] / X | Y with pairwise equally-meant members (any length): all are unions,
@@ -55,19 +55,18 @@ Theorem C17_spelling_union : forall s s' l l',
   /\ isoptionaltype tbl (IUnion s l) = isoptionaltype tbl (IUnion s' l').
 Proof. exact (spelling_union tbl C17_tables_ok). Qed.
 
-(* origin() of a collection annotation is a concrete class of that kind; the only abstract classes
-   below collections.abc.Collection without a concrete image are listed by computation *)
-Theorem C17_abstract_unmapped : abstract_unmapped tbl = [k_abcByteString].
+(* origin() of a collection annotation is a concrete class of that kind: no abstract class below
+   collections.abc.Collection is left without a concrete image (by computation on the tables) *)
+Theorem C17_abstract_unmapped : abstract_unmapped tbl = [].
 Proof. vm_compute. reflexivity. Qed.
 Theorem C17_origin_concrete : forall t c,
-  chain_ok t = true -> head_class tbl (strip t) = Some c -> subclass tbl c c_Collection = true ->
-  c <> k_abcByteString ->
+  head_class tbl (strip t) = Some c -> subclass tbl c c_Collection = true ->
   origin tbl t = IClass (doc_map tbl c)
   /\ is_abstract_cls tbl (doc_map tbl c) = false /\ same_kind tbl (doc_map tbl c) c = true.
 Proof.
-  intros t c Hc Hh Hcol Hne.
-  apply (origin_concrete tbl t c C17_tables_ok Hc Hh Hcol).
-  rewrite C17_abstract_unmapped. intros [H|[]]. apply Hne. symmetry. exact H.
+  intros t c Hh Hcol.
+  apply (origin_concrete tbl t c C17_tables_ok Hh Hcol).
+  rewrite C17_abstract_unmapped. intros [].
 Qed.
 
 (* stable across calls: a history of calls of one predicate in which no key occurs in two spellings
@@ -79,29 +78,29 @@ Proof. exact (pred_history_stable tbl). Qed.
 
 (* ---------------------------------------------------------------- non-vacuity *)
 Definition ex_chain : ity :=
-  INewType "Outer" (INewType "Inner" (IAlias "Rows" (ITypingSub al_Sequence [IUnion UOptional [IClass c_int; IClass c_NoneType]]))).
+  IAlias "Outer" (INewType "Mid" (IAlias "Inner" (IAlias "Rows"
+    (ITypingSub al_Sequence [IUnion UOptional [IClass c_int; IClass c_NoneType]])))).
 Example C17_agrees_satisfiable :
-  runtime_says tbl P_isiterabletype ex_chain = Some true /\ c17_guard tbl P_isiterabletype ex_chain = true
-  /\ runtime_says tbl P_ismappingtype ex_chain = Some false /\ c17_guard tbl P_ismappingtype ex_chain = true
-  /\ runtime_says tbl P_isstringtype (INewType "S" (INewType "R" (IClass c_str))) = Some true
-  /\ c17_guard tbl P_isstringtype (INewType "S" (INewType "R" (IClass c_str))) = true
-  /\ origin tbl ex_chain = IClass c_list.
+  runtime_says tbl P_isiterabletype ex_chain = Some true
+  /\ runtime_says tbl P_ismappingtype ex_chain = Some false
+  /\ runtime_says tbl P_isstringtype (IAlias "S" (INewType "R" (IAlias "Q" (IClass c_str)))) = Some true
+  /\ runtime_says tbl P_ispatterntype (INewType "P" (ITypingSub al_Pattern [IClass c_str])) = Some true
+  /\ runtime_says tbl P_isdatetype (IClass k_UCallable) = Some false
+  /\ origin tbl ex_chain = IClass c_list /\ origin tbl (IClass c_type) = IClass c_type.
 Proof. vm_compute. repeat split. Qed.
 Example C17_spelling_satisfiable :
   spell tbl (INewType "N" (ITypingSub al_Mapping [IClass c_str; ITypingSub al_List [IClass c_int]]))
             (INewType "N" (IClassSub (ta_origin tbl al_Mapping) [IClass c_str; IClassSub (ta_origin tbl al_List) [IClass c_int]]))
-  /\ chain_ok (INewType "N" (ITypingSub al_Mapping [IClass c_str; ITypingSub al_List [IClass c_int]])) = true
   /\ family_of P_ismappingtype = Some FMapping.
 Proof.
-  split; [|split; reflexivity].
+  split; [|reflexivity].
   apply sp_newtype. apply sp_sub. repeat constructor.
 Qed.
 Example C17_concrete_satisfiable :
-  chain_ok (ITypingSub al_MutableSet [IClass c_int]) = true
-  /\ head_class tbl (strip (ITypingSub al_MutableSet [IClass c_int])) = Some k_abcMutableSet
-  /\ subclass tbl k_abcMutableSet c_Collection = true /\ k_abcMutableSet <> k_abcByteString
-  /\ doc_map tbl k_abcMutableSet = c_set.
-Proof. vm_compute. repeat split. discriminate. Qed.
+  head_class tbl (strip (ITypingSub al_MutableSet [IClass c_int])) = Some k_abcMutableSet
+  /\ subclass tbl k_abcMutableSet c_Collection = true
+  /\ doc_map tbl k_abcMutableSet = c_set /\ doc_map tbl k_abcByteString = c_bytes.
+Proof. vm_compute. repeat split. Qed.
 Example C17_stable_satisfiable :
   let h := [IUnion UOptional [IClass c_int; IClass c_NoneType]; IClass c_int;
             IUnion UOptional [IClass c_int; IClass c_NoneType]] in
@@ -109,23 +108,6 @@ Example C17_stable_satisfiable :
 Proof. vm_compute. reflexivity. Qed.
 
 (* ---------------------------------------------------------------- refutations of the excluded regions *)
-(* wrapper chains the code cannot resolve: alias of NewType, alias of alias -> TypeError *)
-Theorem C17_refuted_alias_chain : exists t,
-  runtime_says tbl P_isdatetype t = Some true /\ chain_ok t = false /\ run_pred tbl P_isdatetype t = Raise EType.
-Proof. exists (IAlias "A" (INewType "N" (IClass c_date))). vm_compute. repeat split. Qed.
-Theorem C17_refuted_alias_alias : exists t,
-  runtime_says tbl P_isstringtype t = Some true /\ chain_ok t = false /\ run_pred tbl P_isstringtype t = Ok false.
-Proof. exists (IAlias "A" (IAlias "B" (IClass c_str))). vm_compute. repeat split. Qed.
-(* (repaired in d552f9e: a class whose instances are callable keeps itself as origin) *)
-Example C17_callable_class_agrees :
-  runtime_says tbl P_isdatetype (IClass k_UCallable) = Some false
-  /\ c17_guard tbl P_isdatetype (IClass k_UCallable) = true
-  /\ origin tbl (IClass c_type) = IClass c_type.
-Proof. vm_compute. repeat split. Qed.
-(* the raw family does not take the typing origin: typing.Pattern[str], re.Pattern[str] *)
-Theorem C17_refuted_raw_generic : exists t,
-  runtime_says tbl P_ispatterntype t = Some true /\ chain_ok t = true /\ run_pred tbl P_ispatterntype t = Ok false.
-Proof. exists (ITypingSub al_Pattern [IClass c_str]). vm_compute. repeat split. Qed.
 (* spelling dependence with a cold cache: string-based issubscriptedgeneric *)
 Theorem C17_refuted_spelling_subscripted : exists a b,
   spell tbl a b /\ run_pred tbl P_issubscriptedgeneric a <> run_pred tbl P_issubscriptedgeneric b.
@@ -144,8 +126,8 @@ Proof.
   split; [vm_compute; reflexivity|]. split; [apply sp_union; repeat constructor|].
   split; vm_compute; discriminate.
 Qed.
-(* isuniontype/isoptionaltype look at the NAME of the origin *)
-Theorem C17_refuted_union_by_name : run_pred tbl P_isuniontype (IClass k_Union) = Ok true.
+(* (repaired: isuniontype compares the origin by identity) *)
+Example C17_union_by_identity : run_pred tbl P_isuniontype (IClass k_Union) = Ok false.
 Proof. vm_compute. reflexivity. Qed.
 
 Print Assumptions C17_tables_ok.
@@ -157,9 +139,5 @@ Print Assumptions C17_spelling_union.
 Print Assumptions C17_abstract_unmapped.
 Print Assumptions C17_origin_concrete.
 Print Assumptions C17_stable.
-Print Assumptions C17_refuted_alias_chain.
-Print Assumptions C17_refuted_alias_alias.
-Print Assumptions C17_refuted_raw_generic.
 Print Assumptions C17_refuted_spelling_subscripted.
 Print Assumptions C17_refuted_cache_spelling.
-Print Assumptions C17_refuted_union_by_name.
